@@ -571,7 +571,17 @@ func (e *Exec) builtin(st *State, fr *Frame, name string, c *ssa.CallCommon, arg
 	case "close":
 		st.Trace = append(st.Trace, "close-chan")
 		if ch, ok := args[0].(VChan); ok && ch.Obj != nil {
-			st.Ghost["closed:"+ch.Obj.Name] = VBool{True}
+			// closing a closed channel panics
+			key := "closed:" + ch.Obj.Name
+			var was T
+			if g, have := st.Ghost[key]; have {
+				was = g.(VBool).T
+			} else {
+				was = e.declare(key, BoolSort)
+			}
+			e.safe(st, instr, "close-closed", Not(was))
+			st.Ghost[key] = VBool{True}
+			st.Writes["ghost:"+key] = true
 		}
 		return nil
 	case "panic":
@@ -684,7 +694,9 @@ func (e *Exec) appendOp(st *State, fr *Frame, args []Value, instr ssa.Instructio
 			}
 			return
 		}
-		e.unsupported("append of symbolic count of non-scalar elements")
+		// contents of the appended part are left arbitrary (sound over-approximation)
+		st2.Notes = append(st2.Notes, "append of a symbolic number of non-scalar elements: contents havocked")
+		e.havocRegion(st2, dst, e.fresh("appendhavoc", BoolSort).S)
 	}
 	// Case A: fits in place (only possible if region exists)
 	// Case B: reallocation
